@@ -159,18 +159,18 @@ STACKS = [
     S('arr_f3', ['array:f3']),
     S('arr_d2', ['array:d2']),
     S('const_f3_f3', ['const:f3:f3']),
-    S('const_f2_f3', ['const:f2:f3'], 'T'),
+    S('const_f2_f3', ['const:f2:f3']),
     S('ident_f2', ['ident:f2']),
     # family N1 M1 f
     S('strided_s1_f1', ['strided:s1', 'array:f1'], family='N1M1f', thr=True),
-    S('mortonp_s1_f1', ['mortonp:s1', 'array:f1'], 'T', family='N1M1f'),
+    S('mortonp_s1_f1', ['mortonp:s1', 'array:f1'], family='N1M1f'),
     # family N2 M2 f
     S('strided_s2_f2', ['strided:s2', 'array:f2'], family='N2M2f', thr=True),
     S('mortonb_s2_f2', ['mortonb:s2', 'array:f2'], family='N2M2f', thr=True),
     S('mortonp_s2_f2', ['mortonp:s2', 'array:f2'], family='N2M2f', thr=True),
     S('hilbert_s2_f2', ['hilbert:s2', 'array:f2'], family='N2M2f', thr=True),
-    S('strided_u2_f2', ['strided:u2', 'array:f2']),
-    S('strided_i2_f2', ['strided:i2', 'array:f2'], 'T'),
+    S('strided_u2_f2', ['strided:u2', 'array:f2'], thr=True),
+    S('strided_i2_f2', ['strided:i2', 'array:f2'], thr=True),
     # family N2 M3 f (N != M)
     S('strided_s2_f3', ['strided:s2', 'array:f3'], family='N2M3f'),
     S('mortonb_s2_f3', ['mortonb:s2', 'array:f3'], 'T', family='N2M3f'),
@@ -206,8 +206,8 @@ STACKS = [
     S('lin_mortonp_s3_f3', ['lin', 'mortonp:s3', 'array:f3'], 'T', thr=True),
     S('lin_mortonb_s2_f2', ['lin', 'mortonb:s2', 'array:f2'], thr=True),
     S('lin_hilbert_s2_f2', ['lin', 'hilbert:s2', 'array:f2'], 'T', thr=True),
-    S('nn_strided_s1_f1', ['nn', 'strided:s1', 'array:f1'], 'T'),
-    S('lin_strided_s4_f1', ['lin', 'strided:s4', 'array:f1'], 'T'),
+    S('nn_strided_s1_f1', ['nn', 'strided:s1', 'array:f1']),
+    S('lin_strided_s4_f1', ['lin', 'strided:s4', 'array:f1'], thr=True),
     # real-level wrappers / whole stacks
     S('aff_nn_strided_s3_f3', ['affine', 'nn', 'strided:s3', 'array:f3'], family='WN3M3f', thr=True),
     S('aff_lin_strided_s3_f3', ['affine', 'lin', 'strided:s3', 'array:f3'], family='WN3M3f', thr=True),
@@ -218,12 +218,12 @@ STACKS = [
     S('aff_nn_strided_s3_d3', ['affine', 'nn', 'strided:s3', 'array:d3'], family='WN3M3d'),
     S('aff_lin_strided_s3_d3', ['affine', 'lin', 'strided:s3', 'array:d3'], 'T', family='WN3M3d'),
     S('lin_clamp_strided_s2_f2', ['lin', 'clamp', 'strided:s2', 'array:f2'], thr=True),
-    S('clamp_lin_strided_s2_f2', ['clamp', 'lin', 'strided:s2', 'array:f2'], 'T'),
-    S('backup_nn_strided_s2_f2', ['backup', 'nn', 'strided:s2', 'array:f2'], 'T', thr=True),
-    S('castd_strided_s2_f2', ['castd', 'strided:s2', 'array:f2']),
-    S('castd_strided_s3_f2', ['castd', 'strided:s3', 'array:f2'], 'T'),
-    S('deref_strided_s2_f2', ['deref', 'strided:s2', 'array:f2']),
-    S('aff_ident_f3', ['affine', 'ident:f3']),
+    S('clamp_lin_strided_s2_f2', ['clamp', 'lin', 'strided:s2', 'array:f2'], thr=True),
+    S('backup_nn_strided_s2_f2', ['backup', 'nn', 'strided:s2', 'array:f2'], thr=True),
+    S('castd_strided_s2_f2', ['castd', 'strided:s2', 'array:f2'], thr=True),
+    S('castd_strided_s3_f2', ['castd', 'strided:s3', 'array:f2'], thr=True),
+    S('deref_strided_s2_f2', ['deref', 'strided:s2', 'array:f2'], thr=True),
+    S('aff_ident_f3', ['affine', 'ident:f3'], thr=True),
     # added while extending coverage (mostly thorough tier)
     S('lin_strided_s1_f1', ['lin', 'strided:s1', 'array:f1'], thr=True),
     S('strided_s2_f4', ['strided:s2', 'array:f4'], family='N2M4f'),
@@ -244,6 +244,10 @@ STACKS = [
     S('aff_nn_mortonb_s2_f3', ['affine', 'nn', 'mortonb:s2', 'array:f3'], 'T', family='WN2M3f'),
     S('aff_lind_strided_s2_f2', ['affine', 'lind', 'strided:s2', 'array:f2'], thr=True),
     S('aff_nnd_strided_s3_d3', ['affine', 'nnd', 'strided:s3', 'array:d3'], 'T'),
+    S('castd_strided_s2_f3', ['castd', 'strided:s2', 'array:f3'], thr=True),
+    S('clamp_lind_strided_s2_d2', ['clamp', 'lind', 'strided:s2', 'array:d2'], thr=True),
+    S('deref_strided_s3_f1', ['deref', 'strided:s3', 'array:f1'], thr=True),
+    S('shuffle10_strided_s2_f3', ['shuffle:10', 'strided:s2', 'array:f3']),
     # device storage behind the CUDA shim
     S('strided_s3_cuda_f3', ['strided:s3', 'cuda:f3'], family='N3M3f'),
 ]
